@@ -13,3 +13,5 @@ done
 git -C /repo checkout -- .
 rm -rf /verif/evidence; mv /tmp/evidence.keep /verif/evidence
 git -C /repo status --short | head -3
+# rebuild the binaries and generated tables from the clean tree again
+(cd /verif && python3 -c "import sys; sys.path.insert(0,'.'); from vlib import core; core.run_translators()" && cd lean && lake build driver >/dev/null 2>&1; cd /verif/harness && cargo build --offline >/dev/null 2>&1)
